@@ -12,6 +12,7 @@ import (
 	"sort"
 	"strings"
 	"sync"
+	"sync/atomic"
 	"time"
 )
 
@@ -185,9 +186,14 @@ type Env struct {
 	nontriv bool
 	logbuf  bytes.Buffer // captured library log output
 
+	seamParks atomic.Int32 // goroutines parked at any harness seam
+	libParks  atomic.Int32 // of those, parked by the engine while inside library code (may hold a library lock)
+	baseG     int          // runtime.NumGoroutine() when the bubble body started
+
 	wake    chan struct{} // poked by seams when the library did something observable
 	simSpan time.Duration
 	inBub   bool
+	forceDump bool // always inspect goroutine states (scenarios whose faults hold library locks)
 	maxStep int
 	steps   int
 }
@@ -364,4 +370,20 @@ func short(s string, n int) string {
 		return s[:n] + "..."
 	}
 	return s
+}
+
+// ParkBegin/ParkEnd bracket every blocking wait at a harness seam. lib is true
+// when the goroutine is parked by the engine while inside library code.
+func (e *Env) ParkBegin(lib bool) {
+	e.seamParks.Add(1)
+	if lib {
+		e.libParks.Add(1)
+	}
+}
+
+func (e *Env) ParkEnd(lib bool) {
+	e.seamParks.Add(-1)
+	if lib {
+		e.libParks.Add(-1)
+	}
 }
